@@ -457,7 +457,8 @@ Definition klookup (k : fkind) : bool :=
 
 (* ---- the stream's case: schema, path of the field under test, its class and default, the process
    environment and the history ---- *)
-Definition ecase := (stree * list str * fkind * pyval * list (str * str) * list gop)%type.
+(* rootkey: the root schema's own constructor key ("" = none); Config._ref_path starts error paths with it *)
+Definition ecase := (stree * str * list str * fkind * pyval * list (str * str) * list gop)%type.
 
 Fixpoint stree_ascii (t : stree) : bool :=
   match t with
@@ -520,7 +521,8 @@ Definition o_step (s : stree) (path : list str) (x : gop * fstate * res unit) : 
           end].
 
 Definition run_env (c : ecase) : pyval :=
-  let '(s, path, k, d, environ, ops) := c in
+  let '(s, rootkey, path, k, d, environ, ops) := c in
+  let epath := dotted (match rootkey with [] => path | _ => rootkey :: path end) in
   if negb (stree_ascii s) then o_str "unmodelled" else
   let b := build_root upper s in
   match env_attr_impl upper s path with
@@ -528,5 +530,5 @@ Definition run_env (c : ecase) : pyval :=
   | Some nm =>
       PTuple [PList 0 (o_names b);
               PList 0 (map (o_step s path)
-                           (gtrace (kvalidate k) (kto_py k) d (klookup k) nm (dotted path) (environ, None) ops))]
+                           (gtrace (kvalidate k) (kto_py k) d (klookup k) nm epath (environ, None) ops))]
   end.
